@@ -15,6 +15,7 @@ The authentication of the control channel and of relay packets (the hostinfo pas
 the one whose key opened the packet) is property C14's subject and is an assumption here.
 -/
 import Nebula.Lemmas.RelayHist
+import Nebula.Lemmas.RelayStale
 
 namespace Nebula.Props.C39
 open Nebula.Relay Nebula.Gen Nebula.Spec.Relay Nebula.Lemmas.Relay
@@ -167,6 +168,106 @@ example :
       .ctl 20 { type := 2, initIdx := 101, respIdx := 700, frm := some 1, to := some 3 }]
     relayPacket (run (init [2] true, 100) ops).1 102 = .forward 20 700 ∧
     relayPacket (run (init [2] true, 100) (ops ++ [.reload false])).1 102 = .drop "not-relay" := by
+  decide
+
+
+-- ---- "relay indexes disappear with the tunnel that owns them", with stale hostinfo pointers
+--
+-- Histories are lists of `SOp` (Model/RelayStale.lean): every operation above, tunnel close keeping the
+-- hostinfo object alive for whoever still points to it, and the relay-manager entry points that allocate a
+-- relay index invoked on such a dead object at ANY later point: `HandleControlMsg` (CloseTunnel followed by a
+-- Control message in one receive batch: the per-batch hostmap cache), `connectionManager.migrateRelayUsed`
+-- with old and/or new torn down, `StartRelays` with the relay's tunnel torn down between its lookup and
+-- `AddRelay`'s lock.
+
+/-- **relay_index_owner_live**: after every history — stale-pointer calls included, anywhere — every key of
+`hm.Relays` is owned by a hostinfo that is in the hostmap now, and that hostinfo's relay state lists it. -/
+theorem relay_index_owner_live (my : List Addr) (am : Bool) (c : Nat) (ops : List SOp) :
+    relayOwnersLive (sRun (sInit my am, c) ops).1.node = true ∧
+    relayIndexInOwnerState (sRun (sInit my am, c) ops).1.node = true := by
+  have h := (sinv_sRun ops (sInit my am, c) (sinv_init my am)).1
+  exact ⟨ownersLive_of_inv h, inOwnerState_of_inv h⟩
+
+/-- **relays_and_state_agree**: both directions — additionally every record of a live hostinfo is registered
+in `hm.Relays` under that very hostinfo. -/
+theorem relays_and_state_agree (my : List Addr) (am : Bool) (c : Nat) (ops : List SOp) :
+    relaysAndStateAgree (sRun (sInit my am, c) ops).1.node = true := by
+  have h := (sinv_sRun ops (sInit my am, c) (sinv_init my am)).1
+  unfold relaysAndStateAgree
+  rw [ownersLive_of_inv h, inOwnerState_of_inv h, registered_of_inv h]
+  rfl
+
+/-- **teardown_erases_relay_indexes**: after every history, deleting a tunnel leaves no `hm.Relays` entry
+that refers to it — at once (`rest = []`) and for ever: whatever happens afterwards (`rest`: any operations,
+any stale-pointer calls on the deleted hostinfo or on others), the removed tunnel never regains a relay index.
+The only proviso: no NEW tunnel is handed the same local index (that would be a different hostinfo). -/
+theorem teardown_erases_relay_indexes (my : List Addr) (am : Bool) (c : Nat) (ops : List SOp) (hid : Nat)
+    (rest : List SOp) (hrest : ∀ op ∈ rest, SOp.isUpOf hid op = false) :
+    noIndexOf (sRun (sDelete (sRun (sInit my am, c) ops).1 hid, (sRun (sInit my am, c) ops).2) rest).1.node hid = true := by
+  have h0 := sinv_sRun ops (sInit my am, c) (sinv_init my am)
+  have h1 : SInv (sDelete (sRun (sInit my am, c) ops).1 hid, (sRun (sInit my am, c) ops).2).1 := sinv_sDelete hid h0
+  exact noIndexOf_of_noId (sinv_sRun rest _ h1).1 (noId_sRun rest _ hrest h1 (noId_sDelete_self _ hid))
+
+/-- **stale_add_relay_registers_nothing** (any node state, any arguments): `AddRelay` handed a hostinfo that
+is not in the hostmap returns an error and leaves the node state — `hm.Relays`, every relay state — as it
+was; in the "target is me" branch of `handleCreateRelayRequest` on such a hostinfo nothing is sent back either. -/
+theorem stale_add_relay_registers_nothing (n : Node) (c hid : Nat) (peer : Addr) (ri ty st : Nat)
+    (stale : n.findHost hid = none) :
+    (addRelay n c hid peer ri ty st).1 = none ∧ (addRelayNode n c hid peer ri ty st).1 = n ∧
+    (addRelayNode n c hid peer ri ty st).2 = staleAddRelay n c ∧
+    ∀ (d : Host) (v1 : Bool) (frm target : Addr) (i : Nat), n.myAddrs.contains frm = false →
+      n.myAddrs.contains target = true → d.byAddr frm = none →
+      staleCreateRelayRequest n c d v1 frm target i = (n, d, staleAddRelay n c, []) := by
+  have e : addRelay n c hid peer ri ty st = (none, staleAddRelay n c) := by
+    unfold addRelay staleAddRelay
+    split
+    · rename_i h; rw [h]
+    · rename_i h; rw [stale, h]
+  refine ⟨by rw [e], by unfold addRelayNode; rw [e], by unfold addRelayNode; rw [e], ?_⟩
+  intro d v1 frm target i hf ht hd
+  unfold staleCreateRelayRequest
+  rw [if_neg (by rw [hf]; exact Bool.false_ne_true), if_pos ht, hd]
+
+-- non-vacuity. Endpoint node 3 (not a relay), tunnel 104 to the relay 2. CloseTunnel -> CreateRelayRequest
+-- (from 1, to me) in one batch: the request is handled on the dead hostinfo; one index is drawn (105) and
+-- nothing is registered. The same request on the live tunnel registers index 105 under hostinfo 104.
+example :
+    let m : Ctl := { type := 1, initIdx := 500, frm := some 1, to := some 3 }
+    let stale := sRun (sInit [3] false, 104) [.base (.up 104 103 [2] none), .base (.down 104), .staleCtl 104 m]
+    let live := sRun (sInit [3] false, 104) [.base (.up 104 103 [2] none), .base (.ctl 104 m)]
+    stale.1.node.relays = [] ∧ stale.2 = 105 ∧ stale.1.dead.map (·.id) = [104] ∧
+    live.1.node.relays = [(105, 104)] ∧ live.2 = 105 := by
+  decide
+
+-- relay role (node 2, am_relay): the request from the dead requester tunnel 102 still sets up the onward leg on
+-- the LIVE target tunnel 103 (index 105, registered under 103); the requester-side record (AddRelay on the
+-- dead 102) draws 106 and registers nothing. Afterwards a new tunnel 108 to the requester negotiates afresh.
+example :
+    let m : Ctl := { type := 1, initIdx := 500, frm := some 1, to := some 3 }
+    let x := sRun (sInit [2] true, 104) [.base (.up 102 101 [1] none), .base (.up 103 104 [3] none),
+      .base (.down 102), .staleCtl 102 m]
+    let y := sRun x [.base (.up 108 107 [1] none), .base (.ctl 108 m)]
+    x.1.node.relays = [(105, 103)] ∧ x.2 = 106 ∧
+    y.1.node.relays = [(107, 108), (105, 103)] ∧ noIndexOf y.1.node 102 = true := by
+  decide
+
+-- StartRelays racing the teardown of the relay's tunnel (initiator node 1, relay 2 behind tunnel 101): the
+-- tunnel is gone, index 103 was drawn, nothing registered, no request sent.
+example :
+    (raceStart (sRun (sInit [1] false, 102) [.base (.up 101 102 [2] none)]).1 102 3 false 2).1.node.relays = [] ∧
+    (raceStart (sRun (sInit [1] false, 102) [.base (.up 101 102 [2] none)]).1 102 3 false 2).2.2 = ([], true) ∧
+    ((startRelays (sRun (sInit [1] false, 102) [.base (.up 101 102 [2] none)]).1.node 102 3 false [2]).1.relays = [(103, 101)]) := by
+  decide
+
+-- migrateRelayUsed(old = 102, new = 108) on the relay with `new` torn down: the used Forwarding record 106 of
+-- `old` is not re-created anywhere (index 109 drawn and dropped); with `new` alive it is (109 under 108).
+example :
+    let m : Ctl := { type := 1, initIdx := 500, frm := some 1, to := some 3 }
+    let x := sRun (sInit [2] true, 104) [.base (.up 102 101 [1] none), .base (.up 103 104 [3] none),
+      .base (.ctl 102 m), .base (.used 106), .base (.up 108 107 [1] none)]
+    (sRun x [.base (.down 108), .migrate 102 108 false]).1.node.relays = [(106, 102), (105, 103)] ∧
+    (sRun x [.base (.down 108), .migrate 102 108 false]).2 = 107 ∧
+    (sRun x [.migrate 102 108 false]).1.node.relays = [(107, 108), (106, 102), (105, 103)] := by
   decide
 
 end Nebula.Props.C39
